@@ -39,7 +39,9 @@ PROPS = {
     "C05": P([], "C05", "C05", "stale,default,races,budget,groups,reuse", ALL, (1500, 40000)),
     "C06": P([], "C06", "C06", "drops,default,stale,budget,groups,reuse", ALL, (2000, 50000)),
     "C07": P([], "C07", "C07", "default,drops,races,limits,budget,groups,reuse,zst", "JA,TJA", (2000, 40000)),
-    "C08": P([], "C08", "C08", "default,big,drops,budget,groups,reuse", ALL, (1500, 30000)),
+    "C08": P([], "C08", "C08", "default,big,drops,budget,groups,reuse", ALL, (1500, 30000),
+             generated_lemmas=["PinsInst.pins_ok"],
+             trusted_extra=["harness --layout: Unpin facts of the crate's types by autoref specialisation (the adapters over a !Unpin upstream are !Unpin, the collections are Unpin)"]),
     "C09": P([], "C09", "C09", "default,limits,races,sleepy,budget,groups,reuse", ADAPT, (2000, 50000)),
     "C10": P([], "C10", "C10", "default,limits,sleepy,races,budget,groups,reuse", ADAPT, (2000, 50000)),
     "C11": P([], "C11", "C11", "default,races,limits,big,budget,groups,reuse", "MB,MU", (2000, 50000)),
